@@ -58,7 +58,7 @@ def load_bundle(bundle, loop, loader=None, how='unbundle'):
         return bundle.unbundle(ctx)
     if how == 'load':
         return persistence.Savable.load(bundle, ctx)
-    cls = (loader or persistence.loaders.get_object_loader()).load_object(persistence.Savable._get_class_name(bundle))
+    cls = (loader if loader is not None else persistence.loaders.get_object_loader()).load_object(persistence.Savable._get_class_name(bundle))
     if how == 'recreate':
         return cls.recreate_from(bundle, ctx)
     if how == 'recreate-noctx' and loader is None:
